@@ -4,7 +4,7 @@ Extraction Language OCaml.
 Cd "../ocaml/gen".
 Extraction "m_c10.ml" tls12_handshake tls13_handshake suite_of key_block_len seal12_gcm seal12_chacha seal12_cbc open12_cbc seal13 open13
   resumption_psk nst_nonce body_len12 body_len13 digest_info ske_signed_content hs_hash Hash tls_prf hkdf_expand_label HKDF_Extract
-  transcript_hash cv13_content rfc_labels psk_selected selected_psk early_secret_of handshake_salt client_early_secret_model server_early_secret_model msg_type nonce_xor aad12 aad13 ver_bytes str
+  transcript_hash cv13_content rfc_labels psk_selected selected_psk dhe_selected schedule13 traffic_key traffic_iv early_secret_of handshake_salt client_early_secret_model server_early_secret_model msg_type nonce_xor aad12 aad13 ver_bytes str
   tls_prf_model hkdf_expand_label_model hkdf_extract_model derive_master_model derive_ext_master_model gen_key_block_model key_block_ptrs
   cipher_sizes finished_model verify_data_model resumption_psk_model make_tbs_model reinit_chunk_model
   gcm12_nonce_model aad12_model chacha12_nonce_model tls13_nonce_model tls13_aad_model md5_spec sha1_spec sha512_spec Nat.add.
